@@ -289,7 +289,11 @@ def chart_case_from_map(r, cid, res, tempo, pts, dense=False):
         k = r.randrange(len(body))
         if body[k][2] <= 4 or body[k][2] == 7:
             _, t0, lane0, len0 = body[k]
-            other = r.choice([0, len0 + 1, len0 + 97, max(0, len0 - 1), 10 * len0 + 3])
+            # (the other length stays inside the chart: an end tick beyond the last point of interest would carry a time
+            #  outside the property's own domain - below 10^6 s - which is what vp check's seed 1 found: a false alarm of this
+            #  generator on the unchanged tree, DESIGN 11.3)
+            room = max(pts) - t0
+            other = r.choice([0, min(len0 + 1, max(room, 0)), max(0, len0 - 1), len0 // 2, min(len0 + 97, max(room, 0))])
             if other != len0:
                 body.insert(k + 1 if r.random() < 0.5 else k, ("N", t0, lane0, other))
     if len(note_ticks) >= 2 and r.random() < 0.2:
